@@ -12,3 +12,5 @@ open RV.C12
 #print axioms verbatim_shares_node
 #print axioms remap_two_nodes
 #print axioms verbatim_not_merge
+#print axioms parse_is_merge_partial
+#print axioms parse_is_merge_witness
